@@ -51,6 +51,29 @@ Definition parse_int (s : string) : option Z :=
       end
   end.
 
+(** The value strconv.ParseInt(s, 10, 64) returns whether or not it also returns an
+    error: 0 on a syntax error, the nearest bound on a range error.  (The
+    scheduler keeps using the gpu-memory value it parsed when it builds a
+    multi-fraction request, without looking at the error again.) *)
+Definition parse_int_raw (s : string) : Z :=
+  match s with
+  | EmptyString => 0%Z
+  | String a r =>
+      let '(neg, body) :=
+        if N_of_ascii a =? 43 then (false, r)
+        else if N_of_ascii a =? 45 then (true, r)
+        else (false, s) in
+      match body with
+      | EmptyString => 0%Z
+      | _ => match digits body 0 with
+             | None => 0%Z
+             | Some n =>
+                 if neg then (if n <=? two63 then (- Z.of_N n)%Z else (- Z.of_N two63)%Z)
+                 else (if n <? two63 then Z.of_N n else (Z.of_N two63 - 1)%Z)
+             end
+      end
+  end.
+
 (** * Doubles by bit pattern.  Sign bit 63, exponent bits 52..62, mantissa 0..51. *)
 Definition f_sign (b : N) : bool := N.testbit b 63.
 Definition f_exp (b : N) : N := N.land (N.shiftr b 52) 2047.
